@@ -201,8 +201,8 @@ func (s *State) park(th *Thread) bool {
 	if s.atomic > 0 {
 		return false
 	}
-	if th.resumed {
-		th.resumed = false
+	if th.justResumed {
+		th.justResumed = false
 		return false
 	}
 	th.parked = true
@@ -582,9 +582,13 @@ func (s *State) chanClose(th *Thread, ch *ChanObj) {
 // ---------- the scheduler ----------
 
 // runAll drives all threads until the main thread (id 0) finishes.
-func (s *State) runAll() {
+func (s *State) runAll(resume bool) {
 	main := s.threads[0]
-	s.cur = main
+	if resume {
+		s.runThread(0)
+	} else {
+		s.cur = main
+	}
 	for {
 		if main.done {
 			return
